@@ -12,9 +12,10 @@
  *
  * What the writer model represents:  writeStartElement / writeEmptyElement / writeTextElement / writeDefaultNamespace /
  * writeAttribute / writeCharacters / writeEndElement with Qt's semantics, including: a child element without its own
- * xmlns declaration inherits the default namespace of its parent; writeCharacters("") writes nothing.
+ * xmlns declaration inherits the default namespace of its parent; attributes and the namespace written after
+ * writeEmptyElement belong to that empty element; writeCharacters("") writes nothing.
  * What it does not represent is a MODEL_LIMIT (exit 2, never a verdict): more than XN elements, XA attributes, XC
- * children or XD open elements; attributes / xmlns added after writeEmptyElement (Qt adds them to that element); mixed content (text next to child elements, or two text chunks in one element); text() of
+ * children or XD open elements; mixed content (text next to child elements, or two text chunks in one element); text() of
  * an element that has child elements; prefixed namespaces.
  * What is an OBLIGATION on the calling code (QXmpp's share of "the output is well-formed XML"), recorded in gh_x.wf and
  * asserted by the units' postconditions: element and attribute names are non-empty, no attribute is written twice on one
@@ -53,7 +54,8 @@ typedef struct xtree {
   int parent[XN + 1];
   /* elements being written */
   xopen s[XD]; int depth;
-  bool has_pending;  /* the last thing written was writeEmptyElement (Qt would still add attributes to that element) */
+  bool has_pending;  /* the last thing written was writeEmptyElement: Qt still adds attributes to THAT element */
+  int pending_id;    /* its id (the element is already committed; later attributes are added to the committed record) */
   bool tag_open;     /* the start tag of the innermost open element still accepts attributes / namespace declarations */
   int used;          /* number of elements created so far (ids 1..used) */
   int base;          /* stack depth at which the serialiser under test started */
@@ -66,7 +68,7 @@ typedef struct xw { char unused; } xw;     /* QXmlStreamWriter: only its identit
 
 #define X_BUILT(e) ((e) >= 1 && (e) <= XN)
 
-static inline void xw_reset(void) { gh_x.depth = 0; gh_x.has_pending = false; gh_x.tag_open = false; gh_x.used = 0; gh_x.base = 0; gh_x.roots = 0; gh_x.root = 0; gh_x.wf = true; }
+static inline void xw_reset(void) { gh_x.depth = 0; gh_x.has_pending = false; gh_x.pending_id = 0; gh_x.tag_open = false; gh_x.used = 0; gh_x.base = 0; gh_x.roots = 0; gh_x.root = 0; gh_x.wf = true; }
 
 static inline void xw_commit(const xopen *o, int parent) {
   int id = o->id;
@@ -115,7 +117,7 @@ static inline void xw_writeStartElement(xw *w, qstr name) { (void)w;
   gh_x.tag_open = true; }
 static inline void xw_writeEmptyElement(xw *w, qstr name) { (void)w;
   xopen o;
-  xw_new(&o, name); xw_commit(&o, gh_x.depth > 0 ? gh_x.s[gh_x.depth - 1].id : 0); gh_x.has_pending = true; gh_x.tag_open = false; }
+  xw_new(&o, name); xw_commit(&o, gh_x.depth > 0 ? gh_x.s[gh_x.depth - 1].id : 0); gh_x.has_pending = true; gh_x.pending_id = o.id; gh_x.tag_open = false; }
 static inline void xw_writeEndElement(xw *w) { (void)w;
   xw_flush();
   if (gh_x.depth <= gh_x.base) { gh_x.wf = false; return; }                 /* end without start */
@@ -128,12 +130,21 @@ static inline void xw_attr_into(xopen *t, qstr k, qstr v) {
   if ((t->nattr > 0 && t->ak[0] == k) || (t->nattr > 1 && t->ak[1] == k) || (t->nattr > 2 && t->ak[2] == k) || (t->nattr > 3 && t->ak[3] == k) XWIDE_ONLY(|| (t->nattr > 4 && t->ak[4] == k))) { gh_x.wf = false; return; }
   MODEL_LIMIT(t->nattr < XA, "abstract XML: more attributes than the ghost tree holds");
   if (t->nattr < XA) { t->ak[t->nattr] = k; t->av[t->nattr] = v; t->nattr++; } }
+/* attribute added to the element created by the preceding writeEmptyElement (already committed under id) */
+static inline void xw_attr_into_committed(int id, qstr k, qstr v) {
+  if (k == 0 || !X_BUILT(id)) { gh_x.wf = false; return; }
+  int n = gh_x.nattr[id];
+  if ((n > 0 && gh_x.ak0[id] == k) || (n > 1 && gh_x.ak1[id] == k) || (n > 2 && gh_x.ak2[id] == k) || (n > 3 && gh_x.ak3[id] == k) XWIDE_ONLY(|| (n > 4 && gh_x.ak4[id] == k))) { gh_x.wf = false; return; }
+  MODEL_LIMIT(n < XA, "abstract XML: more attributes than the ghost tree holds");
+  if (n == 0) { gh_x.ak0[id] = k; gh_x.av0[id] = v; } else if (n == 1) { gh_x.ak1[id] = k; gh_x.av1[id] = v; } else if (n == 2) { gh_x.ak2[id] = k; gh_x.av2[id] = v; }
+  else if (n == 3) { gh_x.ak3[id] = k; gh_x.av3[id] = v; } XWIDE_ONLY(else if (n == 4) { gh_x.ak4[id] = k; gh_x.av4[id] = v; })
+  if (n < XA) gh_x.nattr[id] = n + 1; }
 static inline void xw_writeDefaultNamespace(xw *w, qstr ns) { (void)w;
-  MODEL_LIMIT(!gh_x.has_pending, "abstract XML: namespace declaration added to an element created by writeEmptyElement");
+  if (gh_x.has_pending) { if (X_BUILT(gh_x.pending_id)) gh_x.ns[gh_x.pending_id] = ns; else gh_x.wf = false; return; }
   if (gh_x.depth > gh_x.base && gh_x.tag_open) gh_x.s[gh_x.depth - 1].ns = ns;
   else gh_x.wf = false; }
 static inline void xw_writeAttribute(xw *w, qstr k, qstr v) { (void)w;
-  MODEL_LIMIT(!gh_x.has_pending, "abstract XML: attribute added to an element created by writeEmptyElement");
+  if (gh_x.has_pending) { xw_attr_into_committed(gh_x.pending_id, k, v); return; }
   if (gh_x.depth > gh_x.base && gh_x.tag_open) xw_attr_into(&gh_x.s[gh_x.depth - 1], k, v);
   else gh_x.wf = false; }
 static inline void xw_writeCharacters(xw *w, qstr t) { (void)w;
